@@ -9,7 +9,13 @@ pub mod error {
 pub struct JobTask { _p: u8 }
 #[verifier::external_body]
 pub struct ExecutionResult { _p: u8 }
-impl ExecutionResult { #[verifier::external_body] pub fn success() -> Self { unimplemented!() } }
+impl ExecutionResult {
+    #[verifier::external_body] pub fn success() -> Self { unimplemented!() }
+    // what a job's result says about control flow is of no concern to the table: arbitrary answers
+    #[verifier::external_body] pub fn is_return_or_exit(&self) -> bool { unimplemented!() }
+    #[verifier::external_body] pub fn is_normal_flow(&self) -> bool { unimplemented!() }
+    #[verifier::external_body] pub fn is_success(&self) -> bool { unimplemented!() }
+}
 pub type JobResult = (Job, Result<ExecutionResult, error::Error>);
 pub assume_specification<T, A: std::alloc::Allocator> [std::collections::VecDeque::<T, A>::is_empty] (v: &std::collections::VecDeque<T, A>) -> (r: bool)
     ensures r == (v@.len() == 0);
